@@ -233,6 +233,63 @@ def failed_run_scenario(viol, obs):
             viol.append(f'failed-run scenario: worker {w.name} outlived its pool')
 
 
+def dead_but_lingering_scenario(viol, obs):
+    """run 1 registers the end of a worker (its target raised) whose process cannot exit on its own; run 2 starts right after: the pool knows the worker is
+    gone and must never offer it work again, whatever is_alive() still says about its process"""
+    from pyworkers.pool import Pool, PoolError
+    from pyworkers.worker import WorkerType
+    pool = Pool(T.linger_then_raise, name='lingering-dead pool', close_timeout=1, retry=False)
+    workers = []
+    offered = []
+    try:
+        with pool:
+            workers.append(pool.add_worker(WorkerType.PROCESS, name='D1'))
+            workers.append(pool.add_worker(WorkerType.PROCESS, name='D2'))
+            died = []
+
+            def cb(worker, event, *rest):
+                if event == 'died':
+                    died.append(worker.name)
+            try:
+                pool.run(iter([0, 1, 2, 3]), worker_callback=cb)
+            except PoolError:
+                pass
+            obs['died_in_run_1'] = list(died)
+            dead = [w for w in workers if w.name in died]
+
+            def enq(worker, x):
+                offered.append((worker.name, x))
+                worker.enqueue(x)
+                return True
+            t0 = time.time()
+            res = {}
+
+            def second():
+                try:
+                    res['ret'] = pool.run(iter([5, 6]), enqueue_fn=enq)
+                except PoolError as e:
+                    res['poolerror'] = repr(e)
+            th = threading.Thread(target=second, daemon=True)
+            th.start()
+            th.join(15)
+            obs['run_2'] = dict(res, seconds=round(time.time() - t0, 2), offered=list(offered)[:12], n_offered=len(offered))
+            if th.is_alive():
+                viol.append(f'run 2 is still running after 15 s: work was offered to {sorted(set(n for n, _ in offered))}')
+            bad = [(n, x) for n, x in offered if any(n == w.name for w in dead)]
+            if bad:
+                viol.append(f'run 2 offered inputs to a worker whose end run 1 had already registered ({sorted(set(n for n, _ in bad))}, {len(bad)} offers): '
+                            f'a dead worker is handed work again')
+    except BaseException as e:     # noqa
+        viol.append(f'lingering-dead scenario: the with-block was left through {type(e).__name__}: {e}')
+    time.sleep(0.3)
+    for w in workers:
+        if pid_exists(w.pid):
+            try:
+                os.kill(w.pid, signal.SIGKILL)
+            except OSError:
+                pass
+
+
 def main():
     sc = json.loads(sys.argv[1])
     viol, obs = [], {}
@@ -253,6 +310,7 @@ def main():
         restart_scenario(viol, obs)
     if not want or want.startswith('L2'):
         failed_run_scenario(viol, obs)
+        dead_but_lingering_scenario(viol, obs)
     if not want or want.startswith('L1'):
         stuck_scenario(viol, obs)
         lingering_scenario(viol, obs)
